@@ -1,5 +1,15 @@
 # Registry of property checks for /verif/check.  quick = (cases, timeout_s); thorough = (shards, cases_per_shard, timeout_s)
-def props(P):
+def props(P0):
+    def P(*a, **kw):
+        try:
+            return P0(*a, **kw)
+        except TypeError:
+            kw.pop("also", None)
+            return P0(*a, **kw)
+    return _props(P)
+
+
+def _props(P):
     sim = lambda test, q, th, **kw: P("sim", test, q, th, **kw)
     store = lambda test, q, th, **kw: P("storepbt", test, q, th, **kw)
     front = lambda test, q, th, **kw: P("front", test, q, th, **kw)
@@ -10,7 +20,8 @@ def props(P):
         "C03": sim("TestC03", (1200, 300), (16, 2500, 1500)),
         "C04": sim("TestC04", (1200, 300), (16, 2500, 1500)),
         "C05": sim("TestC05", (1200, 300), (16, 2500, 1500), regress="TestRegressC05"),
-        "C06": sim("TestC06", (60, 300), (16, 60, 2400), level="fault_enumeration"),
+        "C06": sim("TestC06", (60, 300), (16, 60, 2400), level="fault_enumeration",
+                   also=[dict(pkg="proc", test="TestC06b", quick=(6, 300), thorough=(8, 12, 2400), env={"VERIF_NEEDS_SERVER": "1"})]),
         "C07": sim("TestC07", (1200, 300), (16, 2500, 1500)),
         "C08": sim("TestC08", (1200, 300), (16, 2500, 1500)),
         "C09": sim("TestC09", (1200, 300), (16, 3000, 1500)),
@@ -24,4 +35,5 @@ def props(P):
         "C19": P("route", "TestC19", (20000, 300), (16, 100000, 1200)),
         "C16": store("TestC16", (400, 300), (16, 1200, 2400)),
         "C17": store("TestC17", (500, 300), (16, 2500, 2400)),
+        "C20": proc("TestC20", (150, 420), (8, 600, 3000)),
     }
